@@ -1,3 +1,4 @@
+pub mod emit_run;
 pub mod lalr_diff;
 
 pub fn selftest() -> i32 {
